@@ -492,6 +492,8 @@ def run(P, R, L):
     K.bundle_no_assertion_trips(P, R, L)
     K.pair16_followers_always_completed(P, R, L)
     R.clause("PAIR-16", "followers are marked complete whatever the group's result (their wait loop has no other exit)")
+    R.clause("PROG-1", "the read-sampling loop of the client iterator makes progress (its counter accumulates)")
+    K.prog1_sampling_loop_progress(P, R, L)
     R.clause("ORD-19", "force_level_compaction withdraws its request only after the background work finished (the compaction thread unwraps the slot at the end of the compaction it was asked for)")
     K.ord19_manual_request_withdrawn_after_work(P, R, L)
     # a blocking flock turns "already open elsewhere" from an error into an open / destroy that never returns
